@@ -285,6 +285,9 @@ func (e *Expect) occur(o *Opt, txt *string) {
 			sh.Set(reflect.ValueOf(&b))
 		case WSlice:
 			sh.Set(reflect.Append(sh, reflect.ValueOf(true)))
+		case WSlicePtr:
+			b := true
+			sh.Set(reflect.Append(sh, reflect.ValueOf(&b)))
 		}
 		return
 	}
